@@ -469,4 +469,31 @@ class OpSequences(LockStep):
         return f"operations {skel['ops']} then observe, write (t, u start as the table read)"
 
 
-HARNESSES = [LockStep(), OpSequences()]
+from checks.C02 import VCF as _VCF
+
+
+class InfoConcat(_VCF):
+    """typed INFO keys of a VCF after np.concatenate of selections whose INFO texts differ in size: the lazily and the eagerly read table
+    both give the values of the records, in the order of the concatenation"""
+    name = "info_concat"
+    functions = ("NamedBufferExtractor.concatenate", "LazyBNPDataClass.__array_function__ (concatenate)", "VCFBuffer._get_info_field",
+                 "BNPDataClass.__array_function__ (concatenate of nested INFO tables)")
+    bounds = {"quick": "2-3 sites-only / genotyped VCF records with declared INFO keys (DP of 1-2 symbolic digits, flags), INFO texts of different "
+                       "sizes; operands [0],[1] / [1],[0] / [0,1],[1] / [2],[0],[1]; read lazily and eagerly; with and without the INFO column of "
+                       "every operand having been taken before the concatenation",
+              "thorough": "same"}
+
+    def skeletons(self, tier, seed):
+        R = lambda pos, dpw, info: dict(chrom=1, pos=pos, id=1, ref=1, alt=1, info=info, dpw=dpw, fmt="GT", samples=["gt", "gt"])
+        two = [R(1, 2, "dp"), R(1, 1, "fl_dp")]
+        three = [R(1, 1, "fla_dp"), R(2, 2, "dp"), R(1, 1, "dp_fl")]
+        out = []
+        for recs, partsets in ((two, ([[0], [1]], [[1], [0]], [[0, 1], [1]])), (three, ([[2], [0], [1]], [[0, 2], [1]]))):
+            for parts in partsets:
+                for lazy in (True, False):
+                    for touch in (False, True):
+                        out.append(dict(recs=recs, buffer="VCFBuffer", crlf=False, prior=None, lazy=lazy, concat_parts=parts, touch_parts=touch))
+        return out
+
+
+HARNESSES = [LockStep(), OpSequences(), InfoConcat()]
